@@ -370,31 +370,50 @@ def run(chk):
         return isinstance(c, ast.Call) and (norm.raw(c.func) in MAKERS or (isinstance(c.func, ast.Attribute) and c.func.attr in ("create_task", "ensure_future")))
 
     def _own_send(c):
-        return isinstance(c, ast.Call) and norm.raw(c.func).startswith("self._send_") and any(isinstance(a, ast.Name) and a.id == par0 for a in c.args)
+        return isinstance(c, ast.Call) and norm.raw(c.func).startswith("self._send_") and bool(c.args)
 
-    tasks = []
+    def _immutable(e, depth=1):
+        """bytes(x) / (x if type(x) is bytes else bytes(x)) / a local whose only definition is one of these"""
+        if isinstance(e, ast.Call) and norm.raw(e.func) == "bytes":
+            return True
+        if isinstance(e, ast.IfExp) and "bytes" in norm.raw(e.test) and (_immutable(e.body, 0) or _immutable(e.orelse, 0)):
+            return True
+        if depth and isinstance(e, ast.Name) and e.id != par0:
+            vals = [v for _d, v in norm.fn_defs(sf.node).defs.get(e.id, []) if v is not None]
+            return len(vals) == 1 and _immutable(vals[0], 0)
+        return False
+
+    tasks = []  # (cfg node, the coroutine call)
     for n in gsf.nodes:
         if n.kind != "stmt" or not isinstance(n.ast, ast.Assign):
             continue
         v = n.ast.value
-        # coro = self._send_x(message, ..); Task(coro)      or      task = create_task(self._send_x(message, ..))
+        # coro = self._send_x(payload, ..); Task(coro)      or      task = create_task(self._send_x(payload, ..))
         if _own_send(v) and any(_is_maker(c) and any(isinstance(a, ast.Name) and a.id == norm.raw(n.ast.targets[0]) for a in c.args) for c in ast.walk(sf.node)):
-            tasks.append(n)
-        elif any(_is_maker(c) and any(_own_send(a) for a in c.args) for c in ast.walk(v)):
-            tasks.append(n)
+            tasks.append((n, v))
+        else:
+            for c in ast.walk(v):
+                if _is_maker(c):
+                    tasks += [(n, a) for a in c.args if _own_send(a)]
     copies = [n for n in gsf.nodes if n.kind == "stmt" and isinstance(n.ast, ast.Assign) and norm.raw(n.ast.targets[0]) == par0 and norm.raw(n.ast.value) == f"bytes({par0})"]
     tests = [n for n in gsf.nodes if n.kind == "test" and norm.raw(n.ast) in (f"type({par0}) is not bytes", f"not type({par0}) is bytes", f"not isinstance({par0}, bytes)")]
     if not tasks:
         chk.analysis_error("C11.copy: the coroutine that send_frame() runs as a task was not found")
-    for t in tasks:
-        p1 = gsf.find_path([gsf.entry], lambda n: n is t, lambda n: n in copies or n in tests, EXPLICIT)
-        p2 = gsf.find_path(None, lambda n: n is t, lambda n: n in copies, EXPLICIT, start_edges=[(x, "T") for x in tests]) if tests else None
-        if p1 is None and p2 is None:
-            chk.ok("C11.copy", t.ast, f"`{K.short(t.ast, 60)}`: the task gets an immutable copy of a payload that is not bytes")
-        else:
-            chk.violation("C11.copy", t.ast, K.short(t.ast, 70), f"if type({par0}) is not bytes: {par0} = bytes({par0})",
-                          "the shielded compress-and-send task keeps the caller's buffer: when the sender is cancelled (wait_for timeout) while the task waits for the lock or the executor, send_frame() returns, the caller refills its bytearray and the task later compresses and sends the new content under the old message",
-                          path=gsf.fmt_path(p1 or p2))
+    for t, call in tasks:
+        a0 = call.args[0]
+        if _immutable(a0):
+            chk.ok("C11.copy", t.ast, f"`{K.short(t.ast, 60)}`: the task gets `{K.short(a0, 40)}`, an immutable copy")
+            continue
+        p1 = p2 = None
+        if isinstance(a0, ast.Name) and a0.id == par0:
+            p1 = gsf.find_path([gsf.entry], lambda n: n is t, lambda n: n in copies or n in tests, EXPLICIT)
+            p2 = gsf.find_path(None, lambda n: n is t, lambda n: n in copies, EXPLICIT, start_edges=[(x, "T") for x in tests]) if tests else None
+            if p1 is None and p2 is None:
+                chk.ok("C11.copy", t.ast, f"`{K.short(t.ast, 60)}`: the task gets an immutable copy of a payload that is not bytes")
+                continue
+        chk.violation("C11.copy", t.ast, K.short(t.ast, 70), f"if type({par0}) is not bytes: {par0} = bytes({par0})",
+                      "the shielded compress-and-send task keeps the caller's buffer: when the sender is cancelled (wait_for timeout) while the task waits for the lock or the executor, send_frame() returns, the caller refills its bytearray and the task later compresses and sends the new content under the old message",
+                      path=gsf.fmt_path(p1 or p2) if (p1 or p2) else "")
     # ---- C11.rx: "however the frames are segmented in transit" - the reader's resumable-state rules are shared with C12 ----
     from rules import C12
 
